@@ -26,8 +26,10 @@ import Mathlib.Tactic
   mixed periodic / reflective / untouched coordinates); (ii) the preimage families are complete and, off the
   end points, non-redundant; (iii) the preimage sum IS the density of the law of fold(x + xi) w.r.t. Lebesgue
   measure on the unit interval (`C16_*_pushforward`), so the folded proposal KERNEL is reversible w.r.t.
-  Lebesgue measure (`C16_*_kernel_reversible`).  (iii) is proved per coordinate; the d-dimensional
-  pushforward identity is not (see clauses/C16.md).
+  Lebesgue measure (`C16_*_kernel_reversible`).  (iii) is proved per coordinate here; the d-dimensional
+  pushforward identity and kernel reversibility (any mixture of untouched / periodic / reflective
+  coordinates, product Lebesgue measure on `Fin d → ℝ`) are in `Props/C16Vec.lean`, by Fubini–Tonelli
+  induction from the one-coordinate results of this file (see clauses/C16.md, row 8f).
 -/
 namespace Props.C16
 open Model.Boundary
